@@ -250,6 +250,7 @@ type pathCtx struct {
 	lastTrace                                                   []rec
 	shared                                                      int
 	facts                                                       map[*Term]rng
+	clock                                                       int64
 	rangeHits                                                   int
 	stack                                                       []*frame
 	panicStack                                                  string
@@ -287,6 +288,7 @@ func (cx *pathCtx) beginPath(prefix []rec) {
 	cx.panicStack = ""
 	cx.model = nil
 	cx.facts = nil
+	cx.clock = 0
 	if cx.f.Size() > 2_000_000 {
 		cx.f = NewFactory()
 		cx.lastTrace = nil
